@@ -28,6 +28,7 @@ from zExceptions import convertExceptionType
 from zExceptions import upgradeException
 
 from ._DocumentTemplate import render_blocks
+from .DT_Return import DTReturn
 from .DT_Util import name_param
 from .DT_Util import parse_params
 
@@ -66,6 +67,8 @@ class Raise:
 
         try:
             v = render_blocks(self.section, md, encoding=self.encoding)
+        except DTReturn:
+            raise
         except Exception:
             v = 'Invalid Error Value'
 
